@@ -776,9 +776,12 @@ func (g *Gen) alloc(x *ssa.Alloc) Val {
 		// ghost fields declared "zero:<type>" start at zero for a newly allocated object of that type
 		for _, gd := range g.E.contracts.Ghosts {
 			if gd.Kind == "field" && gd.ZeroFor == typeID(elem) {
-				heap, _, _, valT := g.ghostHeap(gd)
+				heap, _, valSort, valT := g.ghostHeap(gd)
 				if valT != nil {
 					g.heapSet(g.cur, heap, fmt.Sprintf("(store %s %s %s)", g.heapGet(g.cur, heap), r, g.zero(valT)))
+				} else if strings.HasPrefix(valSort, "(Array ") && strings.HasSuffix(valSort, " Bool)") {
+					// a ghost set starts empty
+					g.heapSet(g.cur, heap, fmt.Sprintf("(store %s %s ((as const %s) false))", g.heapGet(g.cur, heap), r, valSort))
 				}
 			}
 		}
@@ -809,6 +812,13 @@ func (g *Gen) isCellAlloc(a *ssa.Alloc) bool {
 	}
 	elem := a.Type().Underlying().(*types.Pointer).Elem()
 	_, isStruct := elem.Underlying().(*types.Struct)
+	for _, gd := range g.E.contracts.Ghosts {
+		if gd.Kind == "field" && gd.ZeroFor == typeID(elem) {
+			// objects of this type carry ghost state: they keep their identity (heap object, not a value)
+			g.cellAllocs[a] = false
+			return false
+		}
+	}
 	var ok func(v ssa.Value) bool
 	ok = func(v ssa.Value) bool {
 		refs := v.Referrers()
